@@ -29,14 +29,14 @@ package parquet
 
 //@ func (*writeCounter).Write
 //@   requires w != nil && isBB(w.w)
-//@   requires[C13] !sel(relArr, ref(asBB(w.w).B))
+//@   requires[C13] live(asBB(w.w).B)
 //@   modifies w, asBB(w.w), HA(asBB(w.w).B)
 //@   ensures err == nil && res0 == #p && w.n == old(w.n) + #p && w.w == old(w.w) && sameOrFresh(asBB(w.w).B)
 //@   ensures[C09] err == nil ==> (wfault ==> old(wfault))
 
 //@ func writeLevels
 //@   requires 1 <= width && width <= 4 && isWC(w)
-//@   requires[C13] !sel(relArr, ref(asBB(asWC(w).w).B))
+//@   requires[C13] live(asBB(asWC(w).w).B)
 //@   modifies asWC(w), asBB(asWC(w).w), HA(asBB(asWC(w).w).B)
 //@   ensures err == nil && asWC(w).w == old(asWC(w).w) && sameOrFresh(asBB(asWC(w).w).B)
 //@   ensures[C09] err == nil ==> (wfault ==> old(wfault))
@@ -46,8 +46,8 @@ package parquet
 
 //@ func compress
 //@   requires buf != nil
-//@   requires[C13] !sel(relArr, ref(buf.B)) && !sel(relArr, ref(vals))
-//@   ensures[C13] !sel(relArr, ref(res2))
+//@   requires[C13] live(buf.B) && live(vals)
+//@   ensures[C13] live(res2)
 //@   modifies buf, HA(buf.B)
 //@   ensures sameOrFresh(buf.B)
 //@   ensures[C09] res3 == nil ==> (wfault ==> old(wfault))
@@ -69,14 +69,14 @@ package parquet
 
 //@ func (*RequiredField).DoWrite
 //@   requires f != nil && metaOK(meta) && external(w)
-//@   requires[C13] !sel(relArr, ref(vals))
+//@   requires[C13] live(vals)
 //@   ensures metaOK(meta) && meta.rowGroups == old(meta.rowGroups)
 //@   modifies meta, HA(meta.rowGroups), heap("sch.ColumnMetaData"), heap("map[string]sch.ColumnChunk"), wfault, relArr
 //@   ensures[C09] err == nil ==> (wfault ==> old(wfault))
 
 //@ func (*OptionalField).DoWrite
 //@   requires f != nil && metaOK(meta) && external(w)
-//@   requires[C13] !sel(relArr, ref(vals))
+//@   requires[C13] live(vals)
 //@   ensures metaOK(meta) && meta.rowGroups == old(meta.rowGroups)
 //@   free-requires 1 <= f.MaxLevels.Def && f.MaxLevels.Def <= 15 && f.MaxLevels.Rep <= 15 && (f.repeated ==> 1 <= f.MaxLevels.Rep)
 //@   modifies meta, HA(meta.rowGroups), heap("sch.ColumnMetaData"), heap("map[string]sch.ColumnChunk"), wfault, relArr
